@@ -125,6 +125,10 @@ impl ReplicaSpec {
         }
     }
 
+    pub fn uses_text(&self) -> bool {
+        matches!(self.path, PathKind::Text | PathKind::TextTransitive) || self.inner.as_ref().map_or(false, |i| i.uses_text())
+    }
+
     pub fn label(&self) -> String {
         match self.path {
             PathKind::BinLib => format!("BinLib<{}>", self.inner.as_ref().map(|i| i.label()).unwrap_or_default()),
